@@ -10,6 +10,9 @@ package plumb
 
 import (
 	"fmt"
+	"github.com/wi1dcard/fingerproxy/pkg/fingerprint"
+	"github.com/wi1dcard/fingerproxy/pkg/proxyserver"
+	"log"
 	"net/http"
 	"testing"
 	"testing/synctest"
@@ -116,22 +119,30 @@ func SeamB(t *testing.T, rep *ev.Report, prop, header string, ref Ref, shard, of
 					if !ev.Thorough() && set == "default+custom" && del != "byte-at-a-time" {
 						continue
 					}
-					runOne(t, rep, prop, header, ref, set, sh, alpn, del)
+					runOne(t, rep, prop, header, ref, set, sh, alpn, del, job%2 == 1)
 				}
 			}
 		}
 	}
 }
 
-func runOne(t *testing.T, rep *ev.Report, prop, header string, ref Ref, set string, sh Shape, alpn []string, del string) {
-	desc := fmt.Sprintf("seamB set=%s shape=%s alpn=%v delivery=%s", set, sh.Name, alpn, del)
+// verbose: the binary's -verbose flag (verbose logs of the proxy server and of the fingerprint package, to loggers
+// that do format their arguments); it may only add log lines.
+func runOne(t *testing.T, rep *ev.Report, prop, header string, ref Ref, set string, sh Shape, alpn []string, del string, verbose bool) {
+	desc := fmt.Sprintf("seamB set=%s shape=%s alpn=%v delivery=%s verbose=%v", set, sh.Name, alpn, del, verbose)
+	fingerprint.VerboseLogs = verbose
+	fingerprint.Logger = log.New(&sink{}, "", 0)
+	defer func() { fingerprint.VerboseLogs = false }()
 	hsFailed := ""
 	res := bubble.Run(t, func() {
 		inj := fingerproxy.DefaultHeaderInjectors()
 		if set != "default" {
 			inj = append(inj, reverseproxy.HeaderInjector(custom{}))
 		}
-		st := bubble.NewStack(bubble.StackOpts{Injectors: inj})
+		st := bubble.NewStack(bubble.StackOpts{Injectors: inj, Configure: func(s *proxyserver.Server) {
+			s.VerboseLogs = verbose
+			s.ErrorLog = log.New(&sink{}, "", 0)
+		}})
 		defer st.Shutdown()
 		h := sh.Hello
 		h.ALPN = alpn
@@ -264,6 +275,10 @@ func handshakeCompletes(t *testing.T, sh Shape, alpn []string) (ok bool) {
 	})
 	return ok
 }
+
+type sink struct{ n int }
+
+func (w *sink) Write(p []byte) (int, error) { w.n += len(p); return len(p), nil }
 
 func contains(set []string, s string) bool {
 	for _, x := range set {
